@@ -26,7 +26,7 @@ class C01(Property):
         ("antismash/common/secmet/locations.py", "locations_overlap"),
     ]
     RULE = ("condition trees (random depth<=5 over single/minscore/minimum/cds/group/and/or with negation; "
-            "exhaustive small family over profiles {a,b} in the thorough/deep tier) x hit assignments with "
+            "small family over profiles {a,b} in the thorough/deep tier: exhaustive for single-atom conditions, sampled for two-atom combinations) x hit assignments with "
             "bitscores around the minscore threshold x gene gaps in {cutoff-1,cutoff,cutoff+1,far} on a line and "
             "across the origin of a ring, incl. origin-spanning genes; non-trivial = at least one other gene "
             "within the cutoff and a condition with an operator/cds/minimum/minscore node; distinct by canonical input")
@@ -183,13 +183,17 @@ class C01(Property):
         total = 0
         combos = list(itertools.product(range(len(per_gene)), repeat=3))
         for cond in conds:
-            hit_sets = combos if full else rng.sample(combos, 12)
+            # exhaustive (every hit assignment x every layout x every focus gene) for the conditions with a
+            # single atom; sampled for the two-atom combinations (the full product would be 1.6e7 cases)
+            single = len(cond[2]) == 1 and cond[2][0][0] != "conj" and cond[2][0][0] != "group"
+            exhaustive = full and single
+            hit_sets = combos if exhaustive else rng.sample(combos, 12 if not full else 8)
             for hs in hit_sets:
-                lays = layouts if full else rng.sample(layouts, 3)
+                lays = layouts if exhaustive else rng.sample(layouts, 3 if not full else 6)
                 for parts, circ in lays:
                     genes = [{"n": i, "loc": {"c": False, "parts": [[p[0], p[1], 1]]},
                               "hits": per_gene[hs[i]], "hasres": bool(per_gene[hs[i]])} for i, p in enumerate(parts)]
-                    for g in ((0, 1, 2) if full else (rng.randrange(3),)):
+                    for g in ((0, 1, 2) if exhaustive else (rng.randrange(3),)):
                         total += 1
                         yield {"kind": "detect", "genes": genes, "cutoff": cutoff, "circ": circ, "g": g, "cond": cond}
         self.exhaustive_done = full
